@@ -26,7 +26,7 @@ RULE = ("case = (scenario, crash point, schedule after the restart): scenarios =
         "crash point at which >=1 message is unacknowledged or >=1 request is outstanding; distinct by (scenario, crash point, schedule hash)")
 ASSUMPTIONS = ["a duplicated RUNNING notification after a crash, lost history (JSON store) and the re-created record's input/startDate are not part of the statement",
                "intra-handler crashes are judged for no-loss only", "the broker requeues unacknowledged messages at the head in original order with redelivered=True"]
-FLOORS = {"crash_points_with_two_instances": 300, "two_instances:crashed_instance_held_something": 50, "evaluations": 500, "crash_points_between_steps": 250, "crash_points_inside_handlers": 200, "nontrivial": 300, "baselines": 12, "store:redis": 100, "outcomes_compared": 250}
+FLOORS = {"transport:blocking": 100, "crash_points_with_two_instances": 300, "two_instances:crashed_instance_held_something": 50, "evaluations": 500, "crash_points_between_steps": 250, "crash_points_inside_handlers": 200, "nontrivial": 300, "baselines": 12, "store:redis": 100, "outcomes_compared": 250}
 SHARDS = {"quick": 16, "thorough": 16}
 TECHNIQUE = "crash-point enumeration with differential oracle against the crash-free run + bounded-progress monitor + worker request log"
 LEVEL_TEXT = ("Every between-step crash point and every engine broker operation of each baseline run is turned into a crash + restart through the real start-up path; outcome "
@@ -74,11 +74,12 @@ FUNCS = dict(F.FUNCS, flaky=["flaky", ["Flaky"]])
 
 
 def make_scn(asl, child, store):
+    """store: 'json' | 'redis' | 'json+blocking' (the blocking pika transport instead of the asyncio one)"""
     machines = {"m": {"asl": asl}}
     if child:
         machines["child"] = {"asl": child}
     return {"machines": machines, "funcs": dict(FUNCS), "starts": [{"machine": "m", "name": "e", "input": {"x": 1, "items": F.items(3, depth=0)}}],
-            "config": {"store": store} if store == "redis" else {}}
+            "config": {"store": store} if store == "redis" else {"transport": "blocking"} if store == "json+blocking" else {}}
 
 
 def signature(run):
@@ -225,11 +226,13 @@ def C_base(cid):
 
 def run(ctx):
     n_scn = ctx.pick(16, 150)
-    stores = ["json", "redis"]
+    stores = ["json", "redis", "json+blocking"]
     i = 0
     for si, (name, asl, child) in enumerate(corpus(ctx.rng("corpus"), n_scn)):
         for store in stores:
             if store == "redis" and si % 3 and ctx.quick:
+                continue
+            if store == "json+blocking" and (si + 1) % 3 and ctx.quick:
                 continue
             i += 1
             scn = make_scn(asl, child, store)
@@ -282,7 +285,7 @@ def between(ctx, scn, name, store, k, s, base_sig):
     pol = None if s == 0 else (lambda w, r=random.Random("%s-%d-%d" % (name, k, s)): make_random(r))
     run = S.execute(scn, policy=pol, seed=ctx.seed, hooks=[crash_hook(k, restart_delay=[0.0, 0.5, 2.0][s % 3])])
     try:
-        ctx.evaluation(); ctx.count("crash_points_between_steps"); ctx.count("store:" + store)
+        ctx.evaluation(); ctx.count("crash_points_between_steps"); ctx.count("store:" + store.split("+")[0]); ctx.count("transport:" + ("blocking" if "blocking" in store else "asyncio"))
         facts = run.crash_state.get("facts") or {}
         key = [name, store, "between", k, _sched.schedule_hash(run)]
         ctx.distinct("schedules", key)
@@ -361,7 +364,7 @@ def two_instances(ctx, scn, name, k, s, iid, base_sig):
 def inside(ctx, scn, name, store, j, base_sig):
     run = S.execute(scn, seed=ctx.seed, hooks=[op_crash_hook(j)])
     try:
-        ctx.evaluation(); ctx.count("crash_points_inside_handlers"); ctx.count("store:" + store)
+        ctx.evaluation(); ctx.count("crash_points_inside_handlers"); ctx.count("store:" + store.split("+")[0]); ctx.count("transport:" + ("blocking" if "blocking" in store else "asyncio"))
         op = run.crash_state.get("op")
         key = [name, store, "inside", j]
         ctx.distinct("schedules", key)
